@@ -484,18 +484,26 @@ func c16Run(a arrangement) c16Outcome {
 }
 
 // sortIntro sorts every list of maps that carries a "name" by that name (the spec gives these lists no order).
-func sortIntro(v interface{}) interface{} {
+func sortIntro(v interface{}) interface{} { return sortIntroAt(v, "") }
+
+// sortIntroAt: member lists (fields, args, enumValues, inputFields, interfaces, locations) follow the order of definition
+// and extension and are sorted by name before comparing; the lists ggql orders itself (types, possibleTypes, directives:
+// by rank and name) must come out in the same order whatever the arrangement and are left as they are.
+func sortIntroAt(v interface{}, key string) interface{} {
 	switch t := v.(type) {
 	case map[string]interface{}:
 		o := map[string]interface{}{}
 		for k, e := range t {
-			o[k] = sortIntro(e)
+			o[k] = sortIntroAt(e, k)
 		}
 		return o
 	case []interface{}:
 		o := make([]interface{}, len(t))
 		for i, e := range t {
-			o[i] = sortIntro(e)
+			o[i] = sortIntroAt(e, key)
+		}
+		if key == "types" || key == "possibleTypes" || key == "directives" {
+			return o
 		}
 		named := len(o) > 0
 		for _, e := range o {
